@@ -232,6 +232,26 @@ Example C15_agree_o_nonvacuous :
   run_pack_o E_om Codec o (TData "B") v = Ok (VDict [("a", VDict [("x", VInt 1); ("y", VNone)])]).
 Proof. repeat split; reflexivity. Qed.
 
+(* sort_keys / forbid_extra_keys / allow_deserialization_not_by_alias are part of the class table: the agreement, frame and
+   decode theorems above quantify over them.  The field loop of to_dict runs over a permutation of the fields: *)
+Theorem C15_pack_order_perm : forall d f, In f (pack_order d) <-> In f (c_fields d).
+Proof. exact In_pack_order. Qed.
+Print Assumptions C15_pack_order_perm.
+
+Definition E_cfg : env :=
+  [mkC "A" None [mkF "z" None TInt; mkF "b" (Some "a_b") (TOpt TInt); mkF "a" None TStr] (Some true) None true true true true].
+Example C15_config_options_nonvacuous :
+  let v := VObj "A" [("z", VInt 1); ("b", VNone); ("a", VStr "s")] in
+  exact E_cfg v (TData "A") = true /\ no_lookalike_union E_cfg (TData "A") = true /\
+  (* sort_keys: fields sorted by NAME, keys by alias *)
+  run_pack_o E_cfg Mixin no_opts (TData "A") v = Ok (VDict [("a", VStr "s"); ("a_b", VNone); ("z", VInt 1)]) /\
+  run_pack_o E_cfg Codec no_opts (TData "A") v = Ok (VDict [("a", VStr "s"); ("a_b", VNone); ("z", VInt 1)]) /\
+  (* allow_deserialization_not_by_alias: "b" is accepted for the aliased field; forbid_extra_keys: "q" is not *)
+  run_unpack E_cfg Codec (TData "A") (VDict [("z", VInt 1); ("b", VInt 2); ("a", VStr "s")])
+    = Ok (VObj "A" [("z", VInt 1); ("b", VInt 2); ("a", VStr "s")]) /\
+  run_unpack E_cfg Mixin (TData "A") (VDict [("z", VInt 1); ("a_b", VInt 2); ("a", VStr "s"); ("q", VInt 0)]) = Err (XExtra "A").
+Proof. repeat split; reflexivity. Qed.
+
 (* the frame theorem's hypothesis is met by a real creation (a subclass that compiles a method onto "C") *)
 Example C15_frame_nonvacuous :
   let X := add_class E_ex (mkC "S" (Some "O") [mkF "g" None (TData "C")] None None false false false true) ["C"] in
